@@ -57,6 +57,14 @@ func (x *gen) ts() int64 {
 	hi := time.Date(2035, 1, 1, 0, 0, 0, 0, time.UTC).Unix()
 	for {
 		t := lo + x.g.Int63n(hi-lo)
+		// boundary bias: midnights and whole hours are where zone-dependent
+		// date arithmetic shows
+		switch r := x.g.Float(); {
+		case r < 0.25:
+			t -= t % 86400
+		case r < 0.45:
+			t -= t % 3600
+		}
 		ok := true
 		// the years the harness itself may run in are never legitimate
 		// timestamps, so a stored "real now" is unambiguous.
@@ -198,7 +206,8 @@ func GenWorldCfg(g *Rng, opt GenOpts) (World, map[string]any) {
 
 	// ---- identity / metadata ------------------------------------------------
 	cfg["name"] = Pick(g, []string{"verifpkg", "foo-bar", "lib.x+y", "a0"})
-	cfg["arch"] = Pick(g, []string{"amd64", "386", "arm64", "arm7", "all", "mips64le", "ppc64le"})
+	// every architecture of the documented GOARCH table
+	cfg["arch"] = Pick(g, []string{"amd64", "386", "arm64", "arm5", "arm6", "arm7", "all", "mips", "mipsle", "mips64le", "ppc64le", "s390", "amd64", "arm6"})
 	cfg["version"] = Pick(g, []string{"1.2.3", "v2.0.1", "0.9.0-beta.1", "3.1.4+git5", "1.0", "2024.01.15"})
 	if x.feat("version_parts", 0.4) {
 		if g.Bool(0.5) {
@@ -382,8 +391,8 @@ func GenWorldCfg(g *Rng, opt GenOpts) (World, map[string]any) {
 		symP, hostP = 0.8, 0.7
 	}
 	if x.feat("symlink", symP) {
-		target := "/usr/bin/app"
-		if !opt.NoHostLinks && g.Bool(hostP) {
+		target := Pick(g, []string{"/usr/bin/app", "/usr/bin/app", "../lib/libverif.so.1", "app", "./../share/verif/target"})
+		if strings.HasPrefix(target, "/") && !opt.NoHostLinks && g.Bool(hostP) {
 			target = Pick(g, []string{"/etc/hostname", "/etc/passwd", "/bin/sh"})
 			x.feats = append(x.feats, "symlink_host_target")
 		}
@@ -586,8 +595,12 @@ func GenWorldCfg(g *Rng, opt GenOpts) (World, map[string]any) {
 	}
 
 	// ---- format blocks -------------------------------------------------------
-	if x.feat("deb_block", 0.5) {
-		debBlock["compression"] = Pick(g, []string{"gzip", "xz", "zstd", "none"})
+	debP := 0.5
+	if opt.SharedBias {
+		debP = 0.8
+	}
+	if x.feat("deb_block", debP) {
+		debBlock["compression"] = Pick(g, []string{"gzip", "xz", "zstd", "none", "zstd"})
 		x.feats = append(x.feats, "debc:"+debBlock["compression"].(string))
 		if g.Bool(0.4) {
 			debBlock["fields"] = map[string]any{"Bugs": "https://verif.invalid/bugs", "X-Custom": "v"}
@@ -635,11 +648,15 @@ func GenWorldCfg(g *Rng, opt GenOpts) (World, map[string]any) {
 	}
 	if sign {
 		x.feats = append(x.feats, "signing")
-		prot := g.Bool(0.4)
+		kr := g.Float()
+		prot := kr >= 0.4
 		armored := g.Bool(0.5)
 		key := "pgp_a"
 		if prot {
 			key = "pgp_b"
+			if kr >= 0.7 {
+				key = "pgp_c" // protected, with a signing subkey
+			}
 			if g.Bool(0.5) {
 				w.Env["NFPM_PASSPHRASE"] = KeyPass
 			} else {
@@ -655,8 +672,12 @@ func GenWorldCfg(g *Rng, opt GenOpts) (World, map[string]any) {
 		x.addKey("keys/pgp"+ext, key+ext)
 		w.KeyName = key
 		sig := map[string]any{"key_file": "@SRC@keys/pgp" + ext}
-		if g.Bool(0.3) {
+		if g.Bool(0.3) || key == "pgp_c" && g.Bool(0.5) {
 			sig["key_id"] = keyID(key)
+			if key == "pgp_c" && g.Bool(0.6) {
+				sig["key_id"] = keyID("pgp_c.sub") // names the signing subkey
+				x.feats = append(x.feats, "key_id_subkey")
+			}
 		}
 		debSig := map[string]any{}
 		for k, v := range sig {
@@ -874,7 +895,11 @@ func RenderConfig(cfg map[string]any) string {
 }
 
 func keyID(name string) string {
-	b, err := os.ReadFile(filepath.Join(KeysDir, name+".keyid"))
+	file := name + ".keyid"
+	if strings.HasSuffix(name, ".sub") {
+		file = strings.TrimSuffix(name, ".sub") + ".subkeyid"
+	}
+	b, err := os.ReadFile(filepath.Join(KeysDir, file))
 	if err != nil {
 		panic(err)
 	}
